@@ -49,6 +49,11 @@ def finish(pid, tier, seed, mod, units, results, wall, known, write=True):
     for v in violations:
         k = _match_known(v, known)
         (known_hit if k else new_viol).append((v, k))
+    # a unit that reproduces a listed finding is accounted for by its KNOWN-FINDING line
+    known_units = set(v['unit'] for v, k in known_hit)
+    def _keep(msgs):
+        return [m for m in msgs if not any(m.startswith(u + ':') for u in known_units)]
+    inconclusive, not_encoded, mismatch, fact_fail = _keep(inconclusive), _keep(not_encoded), _keep(mismatch), _keep(fact_fail)
 
     print('%s tier=%s seed=%d: %d units, %d paths, %d obligations (%d closed syntactically by hash-consing/normal form, '
           '%d discharged unsat by z3, %d solver queries, %.1fs solver), %d structural facts, '
